@@ -301,6 +301,57 @@ def match_table(fn):
     return [(strip(a['pat']), strip(a['body'])) for a in e['arms']]
 
 
+def from_str_by_search(f, fn, variants):
+    """recognises  `CONST.iter().copied().find(|v| v.filename() == input).ok_or(Err)`  (also `.cloned()`, `into_iter()`, the operands of
+    `==` swapped) where CONST is a literal array that lists every variant exactly once.  Returns True if from_str has that form."""
+    if not fn:
+        return None
+    st = fn['body']['stmts']
+    e = strip(st[-1].get('e')) if st and st[-1].get('e') else None
+    if len(st) != 1 or not e or e.get('k') != 'mcall' or e.get('m') not in ('ok_or', 'ok_or_else') or len(e.get('args', [])) != 1:
+        return None
+    param = fn['params'][0]['pat'].get('name') if fn.get('params') else None
+    fd = strip(e['recv'])
+    if fd.get('k') != 'mcall' or fd.get('m') != 'find' or len(fd.get('args', [])) != 1:
+        return None
+    clo = strip(fd['args'][0])
+    if clo.get('k') != 'closure' or len(clo.get('params', [])) != 1:
+        return None
+    cp = clo['params'][0]
+    while cp.get('k') in ('ref', 'reference') and cp.get('pat'):
+        cp = cp['pat']
+    vname_ = cp.get('name')
+    body = strip(clo['body'])
+    if body.get('k') != 'bin' or body.get('op') != '==':
+        return None
+    def is_filename_of_v(x):
+        x = strip(x)
+        if x.get('k') == 'unary' and x.get('op') == '*':
+            x = strip(x['e'])
+        return x.get('k') == 'mcall' and x.get('m') == 'filename' and not x.get('args') and strip(x['recv']).get('k') == 'path' and strip(x['recv']).get('v') == vname_
+    def is_input(x):
+        x = strip(x)
+        while x.get('k') == 'unary' and x.get('op') in ('*', '&'):
+            x = strip(x['e'])
+        return x.get('k') == 'path' and x.get('v') == param
+    if not ((is_filename_of_v(body['l']) and is_input(body['r'])) or (is_filename_of_v(body['r']) and is_input(body['l']))):
+        return None
+    src = strip(fd['recv'])
+    while src.get('k') == 'mcall' and src.get('m') in ('iter', 'copied', 'cloned', 'into_iter') and not src.get('args'):
+        src = strip(src['recv'])
+    if src.get('k') != 'path':
+        return None
+    cname = src['v'].split('::')[-1]
+    cs = [s_ for s_ in f['statics'] if s_['name'].split('::')[-1] == cname and s_.get('e', {}).get('k') == 'array']
+    if len(cs) != 1:
+        return None
+    items = [strip(x) for x in cs[0]['e']['es']]
+    names = [x['v'].split('::')[-1] for x in items if x.get('k') == 'path']
+    if len(names) != len(items) or len(set(names)) != len(names) or set(names) != set(variants):
+        return None
+    return True
+
+
 def version_rules(C, syn):
     f = syn[SPEC + 'autosarversion.rs']
     where = SPEC + 'autosarversion.rs'
@@ -324,7 +375,10 @@ def version_rules(C, syn):
     fnm = match_table(fns.get(('AutosarVersion', 'filename'), {'body': {'stmts': []}}))
     fs = match_table(fns.get(('<AutosarVersion as core::str::FromStr>', 'from_str'), {'body': {'stmts': []}}))
     fu = match_table(fns.get(('<AutosarVersion as FromPrimitive>', 'from_u64'), {'body': {'stmts': []}}))
-    if not fnm or not fs or not fu:
+    fs_by_search = None
+    if fnm and fu and not fs:
+        fs_by_search = from_str_by_search(f, fns.get(('<AutosarVersion as core::str::FromStr>', 'from_str')), set(disc))
+    if not fnm or not (fs or fs_by_search) or not fu:
         C.anchor_missing('C18-DATA-version', 'filename/from_str/from_u64 match tables')
         return
     def vname(p):
@@ -337,6 +391,12 @@ def version_rules(C, syn):
     C.check(len(set(file_of.values())) == len(file_of), 'C18-DATA-version', 'filename-injective', 'two versions share a schema file name', where)
     from_str = {}
     wild_err = False
+    if fs_by_search:
+        # from_str(input) = the variant v of a constant list of ALL variants with v.filename() == input, else Err: the inverse of
+        # filename() by construction (filename is injective, checked above)
+        from_str = {fn_: v for v, fn_ in file_of.items()}
+        wild_err = True
+        fs = []
     for pat, body in fs:
         if pat['k'] == 'lit' and pat['e']['k'] == 'str' and body['k'] == 'call' and body['f'].get('v') == 'Ok':
             from_str[pat['e']['v']] = vname(body['args'][0]['v'])
